@@ -3,6 +3,7 @@ pub mod api;
 pub mod common;
 pub mod engine;
 pub mod fcommon;
+pub mod fuzzing;
 pub mod gen;
 pub mod inh;
 pub mod p_arith;
@@ -21,4 +22,24 @@ use engine::Property;
 
 pub fn all_properties() -> Vec<Property> {
     vec![p_sweep::c01(), p_arith::c02(), p_arith::c03(), p_arith::c04(), p_arith::c05(), p_base::c06(), p_base::c07(), p_round::c08(), p_conv::c09(), p_forms::c10(), p_sweep::c11(), p_base::c12(), p_pow::c13(), p_explog::c14(), p_explog::c15(), p_trig::c16(), p_trig::c17(), p_trig::c18(), p_arith::c19(), p_text::c20()]
+}
+
+pub fn verif_dir() -> String {
+    std::env::var("VERIF_DIR").unwrap_or_else(|_| "/verif".to_string())
+}
+
+/// signatures of the findings listed with status "known" for a property (known_findings.json)
+pub fn known_signatures(prop: &str) -> Vec<String> {
+    let path = format!("{}/known_findings.json", verif_dir());
+    let Ok(text) = std::fs::read_to_string(&path) else { return vec![] };
+    let Ok(v) = serde_json::from_str::<serde_json::Value>(&text) else { return vec![] };
+    let mut out = vec![];
+    for e in v.get("findings").and_then(|x| x.as_array()).cloned().unwrap_or_default() {
+        if e.get("status").and_then(|s| s.as_str()) == Some("known") && e.get("property").and_then(|s| s.as_str()) == Some(prop) {
+            if let Some(sig) = e.get("signature").and_then(|s| s.as_str()) {
+                out.push(sig.to_string());
+            }
+        }
+    }
+    out
 }
